@@ -37,6 +37,10 @@ CLAIMED = {
    text='Machine-checked proof (Lean 4): conditional_selects — for EVERY well-formed conditional tree (any number of .elif arms, with or without .else, nested to any depth in taken and untaken branches, arbitrary payload text including text that does not parse), followed by any lines, from every state, the model of parse_iter/skip on the text of the tree ends in exactly the state (or failure) of the reference semantics that assembles only the plain lines of the first branch whose condition holds (or of .else), in order — by mutual structural induction over the tree with lemmas for every way skip moves over a tree (skip_block…, finish_construct); loop-bound irrelevance of the line loop is proved (fuel_irrelevant). Tie: differential run (impl vs model) and the metamorphic oracle the property names (build(src) = build(src with unselected lines blanked)) over all shapes x truth assignments x nesting positions and random deeper trees.',
    note='Trusted: Lean kernel; well-formedness restricts construct directive lines to carry no label and plain lines in SELECTED positions not to be .macro/.exit lines (outcome "scope": no claim); the last step to "program with the lines deleted" is exercised by the metamorphic run, not yet a theorem.',
    technique='Lean 4 theorem (simulation by mutual structural induction over conditional trees) + metamorphic differential correspondence', ref='6/C08'),
+ 'C09': dict(
+   text='Machine-checked proof (Lean 4) of the steps of macro handling on the model of pass0.rs / parser.rs: macro_definition_lowercases + macro_body_stored + call_lowercases (definition and call meet under the lower-cased name, whatever the letter case), undefined_macro_error (names the call line), compound_argument_parenthesised (the text pasted for a compound expression argument is parenthesised), register/index argument text, no_arguments_no_substitution. The whole-expansion statement (pass0 of a program = parse of its hand expansion) is NOT yet a theorem (it needs parse(print(e)) = e at character level, staged): it is decided by the differential/metamorphic run — random macro sets (up to ten parameters, holes next to tighter/unary operators, conditionals on parameters, nested calls, segment switches) called with registers, index forms and random expression trees; build(P) must equal build(hand-expanded P), where the generator expands on the structure. A genuine defect found by this check was repaired (body ending with a segment switch).',
+   note='Trusted: Lean kernel, the generator\'s structural hand expansion, model of pass0 tied by correspondence. Partial: theorem coverage is of the individual steps only.',
+   technique='Lean 4 theorems on the macro steps + metamorphic differential correspondence (program vs hand expansion)', ref='6/C09'),
  'C10': dict(
    text='Machine-checked proof (Lean 4) of the binding rules on the model of context.rs / pass 1 / pass 2 / get_r8: lookup_case and alias_case (labels, .equ, .set, pc and .def aliases are matched without regard to letter case), set_latest (after an assignment every spelling of the name yields the value just assigned), def_binds / undef_unbinds (alias is the register from .def to .undef), alias_same_bytes (for EVERY mnemonic, operand position and context an instruction using a live alias is byte-identical to one using the register), undefined_is_error (an unknown name never evaluates — in particular not to 0), dead_alias_is_bad, and (C02) the label step: a name already taken fails with its line. Tie: differential run of random symbol programs; oracle = the generator\'s independent binder: build(P) must equal build(hand-resolved P), and every mutant (single definition deleted, duplicate label, alias after .undef, label/.equ clash) must fail. Two genuine defects found by this check were repaired (label vs .equ clash, duplicate .equ).',
    note='Trusted: Lean kernel, the generator\'s binder (documented rules), model tied by correspondence. The global statement (every reference of every program resolves to its unique definition) is not one theorem; it is the composition of the step theorems plus the differential/mutant run. .define flags are case-sensitive by design of the tool (outside the property).',
